@@ -106,7 +106,7 @@ func init() {
 		"verifChoose": func(p *Path, th *Thread, fr *Frame, args []Value) Value {
 			tag := args[0].(string)
 			n := int(p.concreteInt(args[1], "verifChoose bound"))
-			c := p.chooseN(n)
+			c := p.chooseNCat(n, "verifChoose:"+tag)
 			t := p.mkIntT(int64(c))
 			p.tagCount[tag]++
 			p.nondet = append(p.nondet, nondetRec{tag: tag, v: t, signed: true, bits: 64})
